@@ -114,3 +114,57 @@ Fixpoint set_bits (ls : list label) (bits : list bool) (s : sample) : sample :=
 Definition bits_of (s : sample) (ls : list label) : list bool := map (fun v => Qc_eqb (s v) 1) ls.
 
 Definition slack_labels (cons : list ccon) : list label := flat_map cc_slack cons.
+
+(* ------------------------------------------------------------------ *)
+(* code-shaped _qm_to_bqm(qm, integers) and CQMToBQMInverter.__call__ (one label space, as in dimod:
+   a binary / spin CQM variable keeps its label in the BQM; an integer variable v owns the bit labels of
+   binary_encoding(v, ub)) *)
+
+Definition int_table := list (label * list lterm).        (* integers: v -> [(bit label, coefficient u[1])] *)
+
+Definition find_int (ints : int_table) (v : label) : option (list lterm) :=
+  match find (fun e => (fst e =? v)%nat) ints with Some e => Some (snd e) | None => None end.
+
+Definition int_bqm (bits : list lterm) : poly := mkPoly 0 bits [].        (* integers[v] *)
+
+(* for v in qm.variables: bqm += qm.get_linear(v) * integers[v]   |   bqm.add_linear(v, qm.get_linear(v)) *)
+Definition qm_lin_step (ints : int_table) (acc : poly) (t : lterm) : poly :=
+  match find_int ints (fst t) with
+  | Some bits => padd acc (scale (snd t) (int_bqm bits))
+  | None => add_linear (fst t) (snd t) acc
+  end.
+
+(* for u, v, bias in qm.iter_quadratic(): the four cases *)
+Definition qm_quad_step (ints : int_table) (acc : poly) (t : qterm) : poly :=
+  let u := fst (fst t) in let v := snd (fst t) in let b := snd t in
+  match find_int ints u, find_int ints v with
+  | Some bu, Some bv => padd acc (scale b (pmul_linear (cvt BINARY) (int_bqm bu) (int_bqm bv)))
+  | Some bu, None => padd acc (scale b (pmul_linear (cvt BINARY) (enc_binary v) (int_bqm bu)))
+  | None, Some bv => padd acc (scale b (pmul_linear (cvt BINARY) (enc_binary u) (int_bqm bv)))
+  | None, None => add_quadratic (cvt BINARY) u v b acc
+  end.
+
+(* qm.spin_to_binary(inplace=False) first, then the two loops, then bqm.offset += qm.offset *)
+Definition qm_to_bqm_code (spins : list label) (ints : int_table) (p : poly) : poly :=
+  let q := substitute_many spins two (- (1)) p in
+  add_offset (p_off q) (fold_left (qm_quad_step ints) (p_quad q) (fold_left (qm_lin_step ints) (p_lin q) pzero)).
+
+(* what a BQM sample means for the CQM *)
+Definition dec_int (ints : int_table) (s : sample) (v : label) : Qc :=
+  match find_int ints v with Some bits => lin_energy bits s | None => s v end.
+
+Definition decode (spins : list label) (ints : int_table) (s : sample) : sample :=
+  fun v => if existsb (Nat.eqb v) spins then two * dec_int ints s v + - (1) else dec_int ints s v.
+
+(* CQMToBQMInverter.__call__: new = {}; for v, vartype in binary: sample[v] | 2*sample[v]-1;
+   for v, bqm in integers: new[v] = 0; for u in bqm.variables: new[v] += sample[u] * u[1] *)
+Definition inverter_call (binary : list (label * vartype)) (ints : int_table) (s : sample) : list (label * Qc) :=
+  map (fun vk => (fst vk, match snd vk with SPIN => two * s (fst vk) - 1 | _ => s (fst vk) end)) binary
+  ++ map (fun e => (fst e, fold_left (fun acc t => acc + s (fst t) * snd t) (snd e) 0)) ints.
+
+(* the encoding table of the functional model, built from the same data *)
+Definition enc_table (spins : list label) (ints : int_table) : encoding :=
+  fun v => match find_int ints v with
+           | Some bits => enc_integer bits
+           | None => if existsb (Nat.eqb v) spins then enc_spin v else enc_binary v
+           end.
